@@ -20,7 +20,7 @@ ALLOWED_STDLIB_AXIOMS = {
 
 PROPS = {
     "C19": {
-        "level_text": "Theorems over all inputs (limit = prefix of the sanitised length; autocut returns a prefix length for every float32 bit pattern and cannot panic except possibly on two scores; aggregation/fusion/merge laws) about the Gallina transcription of aggregation.go/limiter.go/fusion.go/storage_merge.go, tied to the code by bit-exact differential runs on every check.",
+        "level_text": "Theorems over all inputs about the Gallina transcription of aggregation.go/limiter.go/fusion.go/storage_merge.go: limit = prefix of the sanitised length; autocut returns a prefix length for every float32 bit pattern and cannot panic except possibly on two scores; aggregation keeps each id once, best first, independent of input order; weighted sum and max over the union, min over the intersection, reciprocal rank over the union by rank; fused ids come from the inputs; merge keeps each id once. Tied to the code by bit-exact differential runs on every check.",
         "level_note": "Trusted: Coq kernel, extraction, harness; float32/64 = SpecFloat. Autocut on exactly two scores is covered by the correspondence only (needs x/x in {1,NaN}).",
         "correspondence": "aggregation.go/limiter.go/fusion.go/storage_merge.go ~ Model.{Aggregation,Limiter,Fusion}",
         "assumptions": ["map iteration order only permutes outputs (compared as multisets)",
@@ -58,14 +58,14 @@ PROPS["C13"] = {
     "nontrivial_min_tokens": 30,
 }
 PROPS["C14"] = {
-    "level_text": "Theorems: every PQ/IVFPQ hit carries sqrt(sum_m table_m[code_m]) for the (residual) query tables and the answer is the exact top-k by that score; codes are the first arg-min codeword per subspace (mod 256, as uint8) by construction; tied to the code bit-for-bit incl. training (k-means re-run in the model).",
+    "level_text": "Theorems: every PQ/IVFPQ hit carries sqrt(sum_m table_m[code_m]) for the (residual) query tables and the answer is the exact top-k by that score; every stored code byte names the FIRST codeword at minimal squared distance from the (residual) subvector (mod 256, as uint8): none strictly nearer, every earlier one strictly farther; tied to the code bit-for-bit incl. training (k-means re-run in the model) and structurally (codes and codebooks dumped and re-checked every run).",
     "level_note": "Trusted: as C02. The real-number reading (score = distance to the reconstruction; error <= quantisation error) is not machine-checked (partial). nbits>8 and IVFPQ.Train with n<2^nbits are known findings exercised separately.",
     "correspondence": "pq_index*.go, ivfpq_index*.go ~ Model.VecIndex (KPQ, KIVFPQ)",
     "nontrivial_min_tokens": 30,
 }
 
 PROPS["C07"] = {
-    "level_text": "Generic theorems about a format language in which all eight WriteTo/ReadFrom pairs are written as descriptors: decode(encode v ++ rest) = (v, rest) for every well-typed value (so concatenated hybrid+vector+text+metadata streams decode), a successful decode consumed exactly an encoding, and model-state conversions for the exhaustive kinds; tied to the code by (i) the model decoding every stream Go writes and re-encoding it bit-identically from the model state, (ii) Go reading back with exact byte counts / consumption, (iii) continuation histories on the reloaded index compared with the model state rebuilt from the bytes.",
+    "level_text": "Generic theorems about a format language in which all eight WriteTo/ReadFrom pairs are written as descriptors: decode(encode v ++ rest) = (v, rest) for every well-typed value (so concatenated hybrid+vector+text+metadata streams decode), a successful decode consumed exactly an encoding, and model-state conversions for the exhaustive kinds; tied to the code by (i) the model decoding every stream Go writes and re-encoding it bit-identically from the model state, (ii) Go reading back with exact byte counts / consumption, (iii) continuation histories on the reloaded index compared with the model state rebuilt from the bytes (vector kinds) and, for all eight kinds, an identical continuation (adds incl. re-adds and empty texts, removals, flush) applied to source and reloaded index followed by the same probes.",
     "level_note": "Trusted: as C02; roaring bitmap / BSI blobs are opaque length-prefixed byte strings. Byte-count bookkeeping (returned n = stream length) and reload equivalence for HNSW/BM25/metadata/hybrid are observed on the implementation (checker 703), not derived from a model of those indexes' search.",
     "correspondence": "*.WriteTo/ReadFrom ~ Model.Codecs descriptors (Model.Format)",
     "nontrivial_min_tokens": 30, "sub_max_len": 20000, "sub_per_checker": 4,
@@ -93,7 +93,7 @@ PROPS["C04"] = {
 }
 
 PROPS["C05"] = {
-    "level_text": "The hybrid Execute is transcribed branch by branch over the sub-models already tied to the code (metadata, exhaustive vector kinds, BM25, fusion); theorems: at most k results in descending fused-score order, empty filter match => empty result, unconfigured modality => error; the score / candidate-set clauses are decided per run by bit-exact comparison (float64) of every sampled search with the composed model plus the soundness oracle (ids inside the filter set and inside the per-modality top-k).",
+    "level_text": "The hybrid Execute is transcribed branch by branch over the sub-models already tied to the code (metadata, exhaustive vector kinds, BM25, fusion). Theorems for every state and request: at most k results in descending fused-score order; empty filter match => empty result; unconfigured modality => error; either the filter matched nothing or the answer is a permutation of the fusion of the vector sub-index's own answer and the text sub-index's own answer to the request restricted to the metadata candidates, every returned id coming from one of the two (metadata-only: being a candidate); the fusion laws incl. reciprocal rank are C19 theorems. Per run: float64 bit-exact comparison of every sampled search with the composed model plus a soundness oracle closed under ties.",
     "level_note": "Trusted: as C02/C03/C04. Ties at a per-modality cut or in RRF ranks make the fused answer order-dependent: those cases are compared for soundness only (counted as weak). HNSW as the vector sub-index is covered separately (C12).",
     "correspondence": "hybrid_search_index.go ~ Model.Hybrid",
     "nontrivial_min_tokens": 40, "sub_max_len": 20000,
@@ -120,7 +120,7 @@ PROPS["C10"]["correspondence"] = "storage.go flush/compaction + storage_segment.
 
 PROPS["C17"] = {
     "level_text": "Theorem over EVERY interleaving of O_EXCL lock attempts, directory scans (succeeding or failing), close-flag test-and-sets, lock releases and uses by any number of handles (goroutines or processes): the LOCK file exists exactly while one handle owns the directory, never two owners; busy open has no effect, a failed scan leaves no lock, Close releases, a second Close errors without effect, use after Close fails, reopen after Close succeeds. The protocol model is tied to storage_provider.go/storage.go by sequences and 2..8-goroutine races of Open/Close/use/failed Open and opens from a second process, with return codes and LOCK-file existence as observables.",
-    "level_note": "Trusted: Coq kernel, extraction, harness; O_CREATE|O_EXCL is atomic (file system); a failing directory scan cannot be provoked as root in this sandbox, so that branch (release on scan failure) is covered by the theorem and by code reading only; the failed open exercised on the implementation is an unusable base path.",
+    "level_note": "Trusted: Coq kernel, extraction, harness; O_CREATE|O_EXCL is atomic (file system). A failing directory scan cannot be provoked as root in this sandbox, so it is injected through the verifFault hook at both scans (initSegmentCounter, listSegments); the other failed open exercised is an unusable base path.",
     "correspondence": "storage_provider.go acquireLock/releaseLock + storage.go Open/Close ~ Model.Lock",
     "nontrivial_min_tokens": 12,
 }
